@@ -37,6 +37,13 @@ BLOBS = {
     "B4": b"#!/bin/sh\nexit 0\n",
 }
 _BLOB_BY_SHA = {hashlib.sha1(v).hexdigest(): k for k, v in BLOBS.items()}
+# text templates that render to nothing whatever the variables are (`Blank` of specs/Team/Team.tla): one conditional block on a
+# name nobody defines, a loop over an empty default list, an intentionally empty file. Their rendering is an empty line.
+BLANK = {
+    "E1": "{%- if verif_nobody_defines_this is defined %}\nE1:{{verif_nobody_defines_this}}\n{%- endif %}",
+    "E2": "{% for r in verif_no_such_list | default([]) %}{{r}}:\n  cluster: [all]\n{% endfor %}",
+    "E3": "",
+}
 
 # BareProvisioner.prepare / DockerProvisioner.prepare require them (mandatory_var)
 AMBIENT = {"runtime.jdk": "17", "runtime.jdk.bundled": "true", "docker_image": "docker.elastic.co/elasticsearch/elasticsearch"}
@@ -122,6 +129,10 @@ def project_content(data, lay):
     segs = []
     for ln in lines:
         m = _LINE.match(ln)
+        if ln == "":
+            # an empty line: the rendering of a template that renders to nothing (t = "" in the specification)
+            segs.append({"t": "", "vals": []})
+            continue
         if not m:
             segs.append({"t": "raw:" + hashlib.sha1(ln.encode("utf-8")).hexdigest()[:10], "vals": []})
             continue
@@ -157,6 +168,8 @@ def _write_ini(path, sections, rnd):
 def _file_bytes(f, inp, rnd):
     if f["kind"] == "binary":
         return BLOBS[f["cid"]]
+    if f["cid"] in BLANK:
+        return (BLANK[f["cid"]] + ("\n" if rnd.random() < 0.7 else "")).encode("utf-8")
     refs = inp["tpl"].get(f["cid"])
     if refs is None:
         raise ValueError("no template for %s" % f["cid"])
